@@ -202,6 +202,19 @@ def run(rep, tier, seed, model_ok=True, effort=1):
                         continue
                     if pv(new.rsplit(".", 1)[0]) < pv(old.rsplit(".", 1)[0]):
                         rep.violation("bump moved calendar parts backwards", input=dict(pattern=pat2, old=old, new=new, date=str(d_new)), **{"class": "bump-backwards"})
+    # ---- (4d) through the CLI with VCS tags: the newest tag is OLDER than the config's version (unpadded parts across 9 -> 10); the update goes on from
+    # the config's version, its calendar parts never move backwards
+    from . import project
+    for pat2, cfgv, tag, args_ in (("YYYY.MM.INC0", "2021.10.0", "2021.9.3", ["--pin-date"]), ("YYYY.MM.INC0", "2021.10.0", "2021.9.3", ["--date", "2021-09-28"]),
+                                   ("YYYY.MM.DD.INC0", "2021.3.10.0", "2021.3.9.2", ["--pin-date"]), ("YYYY.WW.INC0", "2021.10.0", "2021.9.5", ["--date", "2021-03-01"])):
+        prj = project.TempProject(pat2, cfgv, files={"a.txt": ["ver = {version}"]}, commit=True, tag=True, push=False, vcs="fakegit", vcs_cfg=dict(tags=[tag], status="", remote=None))
+        with prj:
+            code, out, logs, exc = prj.run(impl, ["update", "--no-fetch", "--dry"] + args_)
+            new = next((l.split("New Version: ", 1)[1].strip() for l in logs if "New Version: " in l), None)
+        rep.case(("bump-older-tag", pat2, cfgv, tag, tuple(args_)), nontrivial=code == 0)
+        rep.count("bump-older-tag")
+        if code == 0 and new is not None and pv(new.rsplit(".", 1)[0]) < pv(cfgv.rsplit(".", 1)[0]):
+            rep.violation("bump moved calendar parts backwards (an older VCS tag replaced the newer configured version)", input=dict(pattern=pat2, old=cfgv, tag=tag, new=new, args=args_), **{"class": "bump-backwards"})
     # ---- (4c) bumps without --date use the day on which they run: a sequence of days in one process (any order), each bump shows its own day
     saved_today = impl.bv_version.TODAY
     try:
